@@ -198,6 +198,24 @@ def sharing_family():
     progs.append(("index", ("std", "filter", [("fun", [("x", None)], ("bool", True)), ("arr", [el(1), el(2)])], 9012), N(1)))
     progs.append(("index", ("std", "filterMap", [("fun", [("x", None)], ("bool", True)), ("fun", [("x", None)], V("x")),
                                                  ("arr", [el(1), el(2)])], 9013), N(0)))
+    # one object literal with an object-level local, bound for two different `this` (the object itself and an
+    # extension of it / two extensions / a mixin under two bases) and read ALTERNATELY: the local runs once per
+    # object, however the reads interleave (seeded change r6-C03: single-slot CachedUnbound)
+    lbase = ("obj", [("l", ("bin", "+", N(4), N(4)))], [],
+             [(S("f1"), ":", False, V("l")), (S("f2"), ":", False, ("bin", "+", V("l"), N(1))),
+              (S("f3"), ":", False, ("bin", "*", V("l"), N(2)))])
+    ext = lambda v, n: ("bin", "+", V(v), ("obj", [], [], [(S("g"), ":", False, N(n))]))  # noqa
+    rd = lambda v, f: ("index", V(v), S(f))  # noqa
+    for order in ([("b", "f1"), ("d", "f1"), ("b", "f2"), ("d", "f2")],
+                  [("d", "f1"), ("b", "f1"), ("d", "f2"), ("b", "f3"), ("d", "f3")],
+                  [("b", "f1"), ("b", "f2"), ("d", "f1"), ("b", "f3")]):
+        progs.append(("local", [("b", lbase), ("d", ext("b", 1))], ("arr", [rd(v, f) for v, f in order])))
+        progs.append(("local", [("t", lbase), ("b", ext("t", 1)), ("d", ext("t", 2))],
+                      ("arr", [rd(v, f) for v, f in order])))
+        progs.append(("local", [("m", lbase),
+                                ("b", ("bin", "+", ("obj", [], [], [(S("z"), ":", False, N(0))]), V("m"))),
+                                ("d", ("bin", "+", ("obj", [], [], [(S("z"), ":", False, N(1))]), V("m")))],
+                      ("arr", [rd(v, f) for v, f in order])))
     # an object local read by assertions and by fields (and by both layers' assertions): one evaluation
     for nas in (1, 2):
         for nf in (1, 2):
